@@ -124,6 +124,7 @@ func VerifC14Adj(ne, layout int) {
 	dir := verifDirection()
 
 	var g DirectedGraph
+	var delE []uint64
 	name := ""
 	switch verifrt.NondetChoice("container", 3) {
 	case 0:
@@ -149,12 +150,18 @@ func VerifC14Adj(ne, layout int) {
 		for _, e := range edges {
 			ts.AddTriple(e.id, e.start, e.end)
 		}
+		// an edge deleted from the base store itself (by id, not by position)
+		if verifrt.NondetChoice("delete an edge from the base store", 2) == 1 {
+			x := verifID(layout, base, "deleted edge")
+			ts.(*triplestore).DeleteEdge(x)
+			delE = append(delE, x)
+		}
 		g = ts
 	}
-	verifrt.Assert(verifAdjacent(g, n, m, dir) == verifSpecAdj(edges, nil, nil, n, m, dir), name+": adjacency set equals the edge list's (both = union of in and out)")
+	verifrt.Assert(verifAdjacent(g, n, m, dir) == verifSpecAdj(edges, nil, delE, n, m, dir), name+": adjacency set equals the edge list's (both = union of in and out)")
 	// queries do not change the graph: a second query, in any direction, sees the same graph
 	dir2 := verifDirection()
-	verifrt.Assert(verifAdjacent(g, n, m, dir2) == verifSpecAdj(edges, nil, nil, n, m, dir2), name+": adjacency set equals the edge list's (both = union of in and out)")
+	verifrt.Assert(verifAdjacent(g, n, m, dir2) == verifSpecAdj(edges, nil, delE, n, m, dir2), name+": adjacency set equals the edge list's (both = union of in and out)")
 	verifrt.Assert(g.NumNodes() == uint64(verifNodeCount(edges, []uint64{extra}, nil)), name+": NumNodes counts the distinct node ids")
 	verifrt.Assert(verifHasNode(g, m) == verifIsNode(edges, []uint64{extra}, m), name+": EachNode yields exactly the node set")
 }
